@@ -135,7 +135,9 @@ def gen_config(ctx):
     nops = c.intrange(2, 10 if prop in ('C11', 'C04') else 7)
     if wide:
         maxlevel = min(maxlevel, 3 if dim == 1 else 2)
-    return dict(dim=dim, degs=degs, ncoarse=ncoarse, knotkind=knotkind, wide=wide, knots0=knots0, truncate=truncate,
+    # a user of THB-splines passes truncate=True to EVERY refine() call: T-admissible meshes that are not H-admissible
+    mark_truncate_always = bool(disparity != np.inf and c.chance(25))
+    return dict(dim=dim, degs=degs, ncoarse=ncoarse, knotkind=knotkind, wide=wide, mark_truncate_always=mark_truncate_always, knots0=knots0, truncate=truncate,
                 disparity=disparity, bdspecs=bdspecs, maxlevel=maxlevel, nops=nops)
 
 
@@ -512,6 +514,11 @@ def check_c04(w, deep=True):
         return False
     ctx.check(maxabs(T @ Ti - sp.identity(nd)) <= TOL and maxabs(Ti @ T - sp.identity(nd)) <= TOL,
               'thb-hb-inverse', lambda: 'T*Tinv-I = %.3g' % maxabs(T @ Ti - sp.identity(nd)), w.sig(what='thb'))
+    if IM is not None and nfine * nd <= 400000:
+        ITm = m.represent_fine_thb()
+        ctx.check(IT.shape == ITm.shape and maxabs(IT - ITm) <= TOL, 'represent-fine-thb',
+                  lambda: 'represent_fine(truncate=True) differs from the definition of the truncated basis by %.3g'
+                  % (maxabs(IT - ITm) if IT.shape == ITm.shape else -1), w.sig(what='represent'))
     ctx.check(maxabs(IH @ T - IT) <= TOL, 'thb-same-space',
               lambda: 'represent_fine(truncate=True) != represent_fine(False) @ thb_to_hb by %.3g' % maxabs(IH @ T - IT),
               w.sig(what='thb'))
@@ -777,7 +784,7 @@ def run_case(ctx):
                 ctx.count('op.refine.multilevel')
             if w.queried_since_refine:
                 ctx.count('probe.refine.after.cache.fill')
-            mt = bool(cfg['disparity'] != np.inf and o.chance(20))
+            mt = bool(cfg['disparity'] != np.inf and (cfg['mark_truncate_always'] or o.chance(10)))
             if mt:
                 ctx.trace[-1].append('mark-truncate')
                 ctx.count('op.refine.mark-truncate')
